@@ -151,22 +151,62 @@ class Lowerer:
         from . import astx
         from .configure import REPO
         import os
-        last = name.split('::')[-1]
+        parts = name.split('::')
+        last = parts[-1]
         ok = False
+        found = {'enum': 0, 'record': 0}
+
+        def in_repo(d):
+            loc = d.get('loc', {})
+            for k in ('expansionLoc', 'spellingLoc'):
+                if k in loc:
+                    loc = loc[k]
+                    break
+            f = loc.get('file') or d.get('range', {}).get('begin', {}).get('file')
+            return f is None or os.path.realpath(f).startswith(os.path.realpath(REPO) + os.sep)
+
+        def visit(d, path):
+            k = d.get('kind')
+            nm = d.get('name')
+            here = path + [nm] if nm else path
+            if nm == last and here[-len(parts):] == parts:
+                if k == 'EnumDecl' and in_repo(d):
+                    found['enum'] += 1
+                elif k in ('CXXRecordDecl', 'ClassTemplateDecl', 'TypedefDecl', 'TypeAliasDecl') and d.get('completeDefinition', True):
+                    found['record'] += 1
+            if k in ('CXXRecordDecl', 'NamespaceDecl', 'ClassTemplateSpecializationDecl', 'LinkageSpecDecl', 'TranslationUnitDecl'):
+                for c in d.get('inner', []):
+                    if isinstance(c, dict):
+                        visit(c, here)
         try:
-            for d in astx.find_decls(srcs[0], last, 'EnumDecl', last, tuple(getattr(self, 'extra_flags', ()) or ())):
-                loc = d.get('loc', {})
-                for k in ('expansionLoc', 'spellingLoc'):
-                    if k in loc:
-                        loc = loc[k]
-                        break
-                f = loc.get('file') or d.get('range', {}).get('begin', {}).get('file')
-                if f is None or os.path.realpath(f).startswith(os.path.realpath(REPO) + os.sep):
-                    ok = True
+            docs, _ = astx.dump(srcs[0], last, tuple(getattr(self, 'extra_flags', ()) or ()))
+            for d in docs:
+                # a filtered dump prints each matching declaration on its own, without its enclosing scopes: the qualified
+                # name is only checkable for nested matches, so an unqualified top-level hit counts only for a one-component name
+                visit(d, [])
+                if d.get('name') == last and len(parts) > 1 and d.get('kind') == 'EnumDecl' and in_repo(d):
+                    found['enum_top'] = found.get('enum_top', 0) + 1
+            # accept only an unambiguous answer: the name denotes enum(s) and no class / alias of the same (qualified) name
+            ok = (found['enum'] > 0 or (found.get('enum_top', 0) > 0 and found['record'] == 0 and self._only_enums_named(docs, last))) and found['record'] == 0
         except Exception:
             ok = False
         Lowerer._ENUM_CACHE[key] = ok
         return ok
+
+    @staticmethod
+    def _only_enums_named(docs, last):
+        """every declaration called `last` anywhere in the filtered dump is an enum (then an unqualified match cannot be a class)"""
+        kinds = set()
+
+        def walk(d):
+            if d.get('name') == last and d.get('kind', '').endswith('Decl') and d.get('kind') not in ('EnumConstantDecl', 'ParmVarDecl', 'VarDecl', 'FieldDecl', 'CXXConstructorDecl', 'CXXDestructorDecl', 'CXXMethodDecl', 'FunctionDecl'):
+                kinds.add(d['kind'])
+            for c in d.get('inner', []):
+                if isinstance(c, dict):
+                    walk(c)
+        for d in docs:
+            walk(d)
+        return kinds <= {'EnumDecl'}
 
     def ntype(self, n):
         """C type of expression/decl node n (tries sugar first, then the desugared type)"""
